@@ -75,6 +75,48 @@ class PathModel:
     def label(s):
         return f"{s[0]}-{s[1]}" if isinstance(s, tuple) else s
 
+    def trans_term(self, P, ps, pne, s, ne, pim, pio, ti, pp_state):
+        """documented transition term for the step from predecessor info P (dict with pim, pio, ti, d_o, d_s) in state ps
+        (non-emitting iff pne) to state s (non-emitting iff ne) matched at map point pim / observation point pio, relative
+        position ti; pp_state = state before the predecessor (for the going-back penalty).  Returns (term, d_o, d_s)."""
+        cfg = self.cfg
+        same_label = self.label(ps) == self.label(s)
+        if cfg.fam == 'dist':
+            dz = self.D(P['pio'], pio)
+            same_edge = (ps == s) or (ps == (s[1], s[0]))
+            connected = ps[1] == s[0]
+            if same_edge or not connected:
+                dx = self.D(P['pim'], pim)
+            else:
+                dx = self.D(P['pim'], f"n{self.mp.canon.get(ps[1], ps[1]) if hasattr(self.mp, 'canon') else ps[1]}") + \
+                    self.D(f"n{self.mp.canon.get(ps[1], ps[1]) if hasattr(self.mp, 'canon') else ps[1]}", pim)
+            if ne:
+                dz = dz + P['d_o']
+                dx = dx + P['d_s']
+            beta = self.beta_ne if (pne or ne) else self.beta
+            tr = -((dz - dx) * (dz - dx)) / E.rv(beta)
+            if same_label:
+                if cfg.goingback:
+                    tr = tr + z3.If(ti < P['ti'], E.rv(LOG05), z3.RealVal(0))
+            elif ps == (s[1], s[0]):
+                if cfg.goingback:
+                    tr = tr + E.rv(LOG05)
+            else:
+                if not connected:
+                    tr = tr + E.rv(LOG05)
+                elif cfg.goingback and pp_state is not None and self.label(pp_state) == self.label(s):
+                    tr = tr + E.rv(LOG05)
+            return tr, dz, dx
+        if same_label:
+            tr = z3.RealVal(0)
+            if cfg.goingback and isinstance(s, tuple):
+                tr = z3.If(ti < P['ti'], E.rv(LOG099), z3.RealVal(0))
+        else:
+            tr = E.rv(LOG09)
+            if cfg.goingback and pp_state is not None and self.label(pp_state) == self.label(s):
+                tr = tr + E.rv(LOG05)
+        return tr, z3.RealVal(0), z3.RealVal(0)
+
     def rederive(self, seq, prevprev_of_first=None):
         """seq: list of (state, obs, obs_ne).  Returns per element a dict(logprob, logprobe, logprobne, length, q,
         d_o, d_s, ti) with the values the documented model assigns to that path prefix."""
@@ -89,43 +131,8 @@ class PathModel:
                 continue
             ps, pobs, pne = seq[i - 1]
             P = out[-1]
-            same_label = self.label(ps) == self.label(s)
             pp_state = seq[i - 2][0] if i >= 2 else None
-            if cfg.fam == 'dist':
-                dz = self.D(P['pio'], pio)
-                same_edge = (ps == s) or (ps == (s[1], s[0]))
-                connected = ps[1] == s[0]
-                if same_edge or not connected:
-                    dx = self.D(P['pim'], pim)
-                else:
-                    dx = self.D(P['pim'], f"n{ps[1]}") + self.D(f"n{ps[1]}", pim)
-                if ne:
-                    dz = dz + P['d_o']
-                    dx = dx + P['d_s']
-                beta = self.beta_ne if (pne or ne) else self.beta
-                tr = -((dz - dx) * (dz - dx)) / E.rv(beta)
-                if same_label:
-                    if cfg.goingback:
-                        tr = tr + z3.If(ti < P['ti'], E.rv(LOG05), z3.RealVal(0))
-                elif ps == (s[1], s[0]):
-                    if cfg.goingback:
-                        tr = tr + E.rv(LOG05)
-                else:
-                    if not connected:
-                        tr = tr + E.rv(LOG05)
-                    elif cfg.goingback and pp_state is not None and self.label(pp_state) == self.label(s):
-                        tr = tr + E.rv(LOG05)
-                d_o, d_s = dz, dx
-            else:
-                if same_label:
-                    tr = z3.RealVal(0)
-                    if cfg.goingback and isinstance(s, tuple):
-                        tr = z3.If(ti < P['ti'], E.rv(LOG099), z3.RealVal(0))
-                else:
-                    tr = E.rv(LOG09)
-                    if cfg.goingback and pp_state is not None and self.label(pp_state) == self.label(s):
-                        tr = tr + E.rv(LOG05)
-                d_o = d_s = z3.RealVal(0)
+            tr, d_o, d_s = self.trans_term(P, ps, pne, s, ne, pim, pio, ti, pp_state)
             delta = tr + em
             if ne == 0:
                 lpe = P['logprob'] + delta
